@@ -86,6 +86,18 @@ CLAIMED = {
              "messages crossing 16 KiB.",
         technique="Coq proof (table invariant; per-type layout table) + model/implementation correspondence with an independent pointer walker",
         ref="DESIGN.md section 6, C07"),
+    "C11": dict(
+        text="PARTIAL. Kernel-checked theorems: the image of Packet::parse - for EVERY accepted byte string the parsed packet meets "
+             "the well-formedness predicate of C02 (names 1..63-byte labels within 255 bytes, every typed RDATA well-formed for "
+             "its layout including TXT with >= 1 string and the IPSECKEY gateway shape, unknown-type data 1..65535 bytes, EDNS "
+             "data in range, counts < 65536) - hence both serialisations succeed and parse back to the same packet, under "
+             "explicit side conditions: opcode and response code have a named variant (otherwise known finding F21, witnessed "
+             "by a theorem), no OPT-typed record remains in a section after the first was lifted, every RDATA re-encodes within "
+             "65535 bytes. The side conditions hold for the serialisation of every well-formed packet. Stray OPT records and the "
+             "whole quantifier (foreign compression layouts, unknown types, empty RDATA, OPT anywhere, every header word, accepted "
+             "malformed inputs, messages up to 64 KiB) are covered by the REPARSE slice on model and implementation.",
+        technique="Coq proof (image of the parser by induction over layouts / sections, composed with the C02 and C03 round trips) + model/implementation correspondence",
+        ref="DESIGN.md section 6, C11"),
     "C05": dict(
         text="Kernel-checked theorems: if Packet::parse accepts d, an independent envelope reader (names, fixed 10-byte RR header, "
              "RDLENGTH skip) succeeds on d and the questions / records correspond one-to-one and in order to its entries (owner, "
